@@ -43,9 +43,63 @@ for pid in sorted(titles):
 allfixed = sorted(set(k['commit'] for k in kf if k['status'] == 'fixed' and k.get('commit')))
 out.append('| total | %d obligations | | %d | %d distinct fix commits | | %d / %d | %d / %d |' % (tot['obl'], tot['known'], len(allfixed), tot['killed'], tot['mut'], tot['det'], tot['seeded']))
 txt = '\n'.join(out)
+# per property detail
+det = []
+for pid in sorted(titles):
+    e = ev.get(pid)
+    if not e:
+        continue
+    c = e['coverage']
+    det.append('#### %s -- %s' % (pid, titles[pid]))
+    det.append('')
+    det.append('*Rules as built.* ' + c['explanation'])
+    det.append('')
+    if c.get('trusted_base'):
+        det.append('*Trusted base.* ' + '; '.join(c['trusted_base']) + '.')
+        det.append('')
+    if e.get('assumptions'):
+        det.append('*Assumptions.* ' + '; '.join(e['assumptions']) + '.')
+        det.append('')
+    known = [k for k in kf if k['property'] == pid and k['status'] == 'known']
+    if known:
+        det.append('*Known findings (genuine defects recorded, not repaired).*')
+        for k in known:
+            det.append('- `%s` %s -- %s  Demonstration: %s' % (k['rule'], k['key'], k['what_fails'], k.get('demonstration', '-')))
+        det.append('')
+    fixed = {}
+    for k in kf:
+        if k['property'] == pid and k['status'] == 'fixed':
+            fixed.setdefault(k.get('commit', '?'), []).append(k)
+    if fixed:
+        det.append('*Defects repaired (`fix:` commits in /repo).*')
+        for cm, ks in sorted(fixed.items()):
+            w = ks[0]['what_fails']
+            w = re.sub(r'^fixed: property=\S+ \S+ ', '', w)
+            det.append('- `%s` %s (%d obligation%s)' % (cm, w, len(ks), '' if len(ks) == 1 else 's'))
+        det.append('')
+    if c.get('suppressed'):
+        det.append('*Reasoned suppressions of infeasible reports (anchor re-checked on every run).*')
+        for sp in c['suppressed']:
+            det.append('- %s: %s' % (sp['key'], sp['reason']))
+        det.append('')
+    sd = sorted((k, v) for k, v in seeded.items() if k.startswith(pid + '/'))
+    if sd:
+        det.append('*Seeded property-breaking changes (sub-agent produced, confirmed, kept under `seeded/%s/`).*' % pid)
+        for k, v in sd:
+            mp = os.path.join(HERE, 'seeded', k, 'meta.json')
+            title = ''
+            if os.path.exists(mp):
+                try:
+                    title = json.load(open(mp)).get('title', '')
+                except Exception:
+                    pass
+            det.append('- %s %s: **%s** by %s' % (k, title, v.get('verdict'), ', '.join(v.get('own', {}).get('rules', [])) or '-'))
+        det.append('')
+dtxt = '\n'.join(det)
 p = os.path.join(HERE, 'DESIGN.md')
 s = open(p).read()
-if '<!-- STATUS:BEGIN -->' in s:
-    s = re.sub(r'<!-- STATUS:BEGIN -->.*?<!-- STATUS:END -->', lambda m: '<!-- STATUS:BEGIN -->\n' + txt + '\n<!-- STATUS:END -->', s, flags=re.S)
-    open(p, 'w').write(s)
+for tag, body in (('STATUS', txt), ('PROPS', dtxt)):
+    if '<!-- %s:BEGIN -->' % tag in s:
+        s = re.sub(r'<!-- %s:BEGIN -->.*?<!-- %s:END -->' % (tag, tag), lambda m: '<!-- %s:BEGIN -->\n' % tag + body + '\n<!-- %s:END -->' % tag, s, flags=re.S)
+open(p, 'w').write(s)
 print(txt)
